@@ -131,16 +131,18 @@ def fragment(c):
             f.top = ["type Twice struct { .A: i32 };", "type %s struct { .A: i32 };" % ("Twice" if same else "Twice2")]
             f.stmts = ["let z: i32 = 1;"]
     elif r == "return":
-        if a == "ok":
-            f.top = ["fn rr() -> i32 { return 1; }"]
-        elif a == "wrongtype":
-            f.top = ['fn rr() -> i32 { return "s"; }']
-        elif a == "missingvalue":
-            f.top = ["fn rr() -> i32 { return; }"]
-        elif a == "narrow":
-            f.top = ["fn rr(w: i64) -> i32 { return w; }"]
-        else:
-            f.top = ["fn rr() { return 1; }"]
+        # lit: a function literal whose return type would make the ill-typed return well typed
+        sig, ret, lit = {
+            "ok": ("fn rr(w: i64) -> i32", "return 1;", "fn() -> str { return \"s\"; }"),
+            "wrongtype": ("fn rr(w: i64) -> i32", 'return "s";', 'fn() -> str { return "s"; }'),
+            "missingvalue": ("fn rr(w: i64) -> i32", "return;", "fn() { }"),
+            "narrow": ("fn rr(w: i64) -> i32", "return w;", "fn(v: i64) -> i64 { return v; }"),
+            "optional": ("fn rr(w: i64, o: i32?) -> i32", "return o;", "fn(v: i32?) -> i32? { return v; }"),
+            "bang": ("fn rr(w: i64) -> i32", 'return "e"!;', 'fn() -> str ! i32 { return "e"!; }'),
+            "valueinvoid": ("fn rr(w: i64)", "return 1;", "fn() -> i32 { return 1; }"),
+        }[a]
+        pre = ("    let helper := %s;\n" % lit) if b == "afterlit" else ""
+        f.top = ["%s {\n%s    %s\n}" % (sig, pre, ret)]
         f.stmts = ["let z: i32 = 1;"]
     elif r == "optional":
         f.params = ["o: i32?"]
